@@ -224,10 +224,11 @@ func asm14RealExec(c *Ctx, op string) {
 		return Entry{Name: n, Kind: 'f', Perms: 0644, Uid: 7, Gid: 7, Sec: 1e9, Content: []byte(body)}
 	}
 	ln := func(n, t string) Entry { return Entry{Name: n, Kind: 'L', Perms: 0777, Uid: 7, Gid: 7, Sec: 1e9, Link: t} }
+	sandboxOutside := filepath.Join(base, "outside")
 	filesets := map[string]Fileset{
 		"w0": {d(""), fl("file0", "zero"), d("d"), fl("d/inner0", "i0")},
 		"w1": {d(""), fl("file1", "one"), d("d"), ln("lnk", "d"), fl("d/inner1", "i1")},
-		"w2": {d(""), fl("file2", "two"), ln("abs", "/etc"), d("sub"), d("sub/deeper")},
+		"w2": {d(""), fl("file2", "two"), ln("abs", sandboxOutside), d("sub"), d("sub/deeper")},
 		"w3": {d(""), ln("up", "../.."), fl("file3", "three")},
 	}
 	ids := map[string]api.WareID{}
@@ -238,7 +239,6 @@ func asm14RealExec(c *Ctx, op string) {
 	os.MkdirAll(filepath.Join(host, "hsub"), 0755)
 	os.WriteFile(filepath.Join(host, "hostfile"), []byte("host"), 0644)
 	hostBefore, _ := Snapshot(host)
-	sandboxOutside := filepath.Join(base, "outside")
 	os.MkdirAll(sandboxOutside, 0755)
 	os.WriteFile(filepath.Join(sandboxOutside, "sentinel"), []byte("s"), 0644)
 	outBefore, _ := Snapshot(sandboxOutside)
@@ -507,6 +507,8 @@ func asm14Engine(c *Ctx) {
 	realCorpus := []string{
 		"/=w0,/d/x=w1", "/=w1,/lnk/x=w0", "/=w2,/abs/x=w0", "/=w3,/up/x=w0", "/a=ro,/ab=w0", "/a=ro,/a/b=w0", "/m=rw,/m/hsub/x=w0",
 		"/=w0,/d=w1,/d/d=w0", "/x/y/z=w0", "/pre/existing/new=w0", "/data=ro,/data-extra=w0,/data/sub=w1", "/=w1,/lnk=w0,/lnk/x=w2",
+		// an input exactly at a path where a shallower ware supplies a symlink (to a directory inside, outside, above)
+		"/=w1,/lnk=w0", "/=w1,/lnk=ro", "/=w1,/lnk=rw", "/=w2,/abs=w0", "/=w2,/abs=rw", "/=w3,/up=ro", "/a=w1,/a/lnk=rw", "/a=w2,/a/abs=ro",
 	}
 	for _, rc := range realCorpus {
 		var toks []string
@@ -517,7 +519,7 @@ func asm14Engine(c *Ctx) {
 		asm14RealExec(c, fmt.Sprintf("asm14 real 0 %s 0", strings.Join(toks, ",")))
 	}
 	kinds := []string{"w0", "w1", "w2", "w3", "w0", "w1", "ro", "rw"}
-	rpool := []string{"/", "/a", "/ab", "/a/b", "/d", "/d/x", "/lnk/x", "/abs/y", "/up/z", "/sub/deeper/q", "/a/lnk/k", "/pre/existing/n", "/data", "/data-extra", "/data/sub"}
+	rpool := []string{"/", "/a", "/ab", "/a/b", "/d", "/d/x", "/lnk/x", "/abs/y", "/up/z", "/lnk", "/abs", "/up", "/sub/deeper/q", "/a/lnk/k", "/pre/existing/n", "/data", "/data-extra", "/data/sub"}
 	for k := 0; k < nReal; k++ {
 		n := 1 + c.Intn(4)
 		used := map[string]bool{}
